@@ -54,15 +54,32 @@ pub fn generate(seed: u64, n: usize, _thorough: bool) -> Cases {
     roots.dedup();
     let roots_term = glist(roots.iter(), |s| gstr(s));
     cases.prelude = format!("Definition the_lib : Lib.lib := {}.", glib(&lib));
-    // unused_variable's two options: (ignore_pattern, allow_unused_self)
-    const PATTERNS: [&str; 4] = ["^_", "^_", "^[ab]$", "^$"];
+    // the options of unused_variable (ignore_pattern default "^_", allow_unused_self default true) and of
+    // shadowing (ignore_pattern default "^_"): every key present or absent; what an absent key means is the
+    // documented default, applied here and not taken from the implementation
+    const UNUSED: [(&str, &str, bool); 8] = [
+        ("", "^_", true),
+        ("unused_variable = { ignore_pattern = \"^_\", allow_unused_self = true }", "^_", true),
+        ("unused_variable = { ignore_pattern = \"^[ab]$\", allow_unused_self = false }", "^[ab]$", false),
+        ("unused_variable = { ignore_pattern = \"^$\", allow_unused_self = true }", "^$", true),
+        ("unused_variable = { allow_unused_self = false }", "^_", false),
+        ("unused_variable = { allow_unused_self = true }", "^_", true),
+        ("unused_variable = { ignore_pattern = \"^[ab]$\" }", "^[ab]$", true),
+        ("unused_variable = { ignore_pattern = \"^_u\" }", "^_u", true),
+    ];
+    const SHADOW: [(&str, &str); 4] = [
+        ("", "^_"),
+        ("shadowing = { ignore_pattern = \"^_\" }", "^_"),
+        ("shadowing = { ignore_pattern = \"^[ab]$\" }", "^[ab]$"),
+        ("shadowing = { ignore_pattern = \"^$\" }", "^$"),
+    ];
     let mut checkers = Vec::new();
-    for pat in PATTERNS.iter() {
-        for allow in [true, false] {
-            let text = format!("[config]\nunused_variable = {{ ignore_pattern = \"{pat}\", allow_unused_self = {allow} }}\n");
+    for (utext, upat, allow) in UNUSED.iter() {
+        for (stext, spat) in SHADOW.iter() {
+            let text = format!("[config]\n{utext}\n{stext}\n");
             let config: selene_lib::CheckerConfig<toml::value::Value> = toml::from_str(&text).unwrap();
             let ck: selene_lib::Checker<toml::value::Value> = selene_lib::Checker::new(config, lib.clone()).unwrap();
-            checkers.push((regex::Regex::new(pat).unwrap(), allow, *pat, ck));
+            checkers.push((regex::Regex::new(upat).unwrap(), *allow, text, ck, regex::Regex::new(spat).unwrap()));
         }
     }
     for i in 0..n {
@@ -85,11 +102,14 @@ pub fn generate(seed: u64, n: usize, _thorough: bool) -> Cases {
         };
         let (refs, vars, nr, nv) = scope_term(&ctx);
         let which = if r.chance(1, 2) { 0 } else { r.below(checkers.len()) };
-        let (ignore_re, allow_self, pattern, checker) = &checkers[which];
+        let (ignore_re, allow_self, pattern, checker, shadow_re) = &checkers[which];
         let diags = match catch_unwind(AssertUnwindSafe(|| checker.test_on(&ast))) { Ok(d) => d, Err(_) => continue };
         let mut ignored: Vec<String> = ctx.scope_manager.variables.iter().map(|(_, v)| v.name.clone()).filter(|n| ignore_re.is_match(n)).collect();
         ignored.sort();
         ignored.dedup();
+        let mut sh_ignored: Vec<String> = ctx.scope_manager.variables.iter().map(|(_, v)| v.name.clone()).filter(|n| shadow_re.is_match(n)).collect();
+        sh_ignored.sort();
+        sh_ignored.dedup();
         let rng = |d: &selene_lib::CheckerDiagnostic| grng((d.diagnostic.primary_label.range.0 as usize, d.diagnostic.primary_label.range.1 as usize));
         let undefined = glist(diags.iter().filter(|d| d.diagnostic.code == "undefined_variable"), |d| rng(d));
         let unused = glist(diags.iter().filter(|d| d.diagnostic.code == "unused_variable"), |d| {
@@ -100,10 +120,10 @@ pub fn generate(seed: u64, n: usize, _thorough: bool) -> Cases {
             format!("({}, {})", rng(d), grng((s.range.0 as usize, s.range.1 as usize)))
         });
         cases.push(
-            format!("CScope {} {} {} {} {} {} {} the_lib {} {}", chunk, refs, vars, roots_term, undefined, shadowing, unused,
-                    glist(ignored.iter(), |s| gstr(s)), gbool(*allow_self)),
+            format!("CScope {} {} {} {} {} {} {} the_lib {} {} {}", chunk, refs, vars, roots_term, undefined, shadowing, unused,
+                    glist(ignored.iter(), |s| gstr(s)), gbool(*allow_self), glist(sh_ignored.iter(), |s| gstr(s))),
             json!({"kind": "scope", "source": src, "references": nr, "variables": nv, "shapes": shapes,
-                   "ignore_pattern": pattern, "allow_unused_self": allow_self,
+                   "config": pattern, "allow_unused_self": allow_self,
                    "nontrivial": nv > 0 && nr > 1}),
         );
     }
